@@ -31,6 +31,17 @@ func hash(s string) string {
 func (c *runner) query(sortName string, limit int, cons *Cons, class string) string {
 	r, b := c.r, c.b
 	line, out, got, src, errText := b.Q(sortName, limit, cons)
+	// The scratch slice lives as long as the query: when a ValueInSet sub-constraint asks for
+	// attribute values itself (the scratch-slice defect), what the matcher answers for one candidate
+	// depends on the capacity the slice reached on the candidates before it – for an enumeration over
+	// a Go map, on the iteration order of that run. Such an answer is judged by the oracle but is
+	// not a function of the op lines: it is compared with the model only when the enumeration order
+	// is fixed (pre-sorted sources, a single blob) or the query was rejected.
+	if !ScratchRisk(cons) || out == "invalid" || src == "corpus_permanode_created" || src == "corpus_permanode_lastmod" || src == "one_blob" {
+		b.Emit(line, out)
+	} else {
+		r.ImplOnly("scratch-risk-over-unordered-enumeration")
+	}
 	r.Hit("sort:" + sortName)
 	if src != "" {
 		r.Hit("src:" + src)
@@ -168,7 +179,9 @@ func probes(r *hk.Run) {
 		c.b.Claim(p2, "add", "tag", "y", 1400000003)
 		c.b.Claim(p2, "add", "tag", "z", 1400000004)
 		c.b.Claim(p3, "add", "tag", "x", 1400000005)
-		sig := c.query("unsorted", -1, &Cons{Pn: &PermC{Attr: "camliMember", InSet: tag("x")}}, "nonconstant")
+		// sorted by creation time the candidates come in a fixed order (p3, p2, p1): the answer is a
+		// function of the op lines
+		sig := c.query("-created", -1, &Cons{Pn: &PermC{Attr: "camliMember", InSet: tag("x")}}, "nonconstant")
 		r.Probe("F-C08-5", sig != "", "camliMember valueInSet tag=x, first member has two tags: "+sig)
 	}
 	{
@@ -222,14 +235,25 @@ func Run(r *hk.Run) {
 		"distinct by (constraint, sort, limit, world size)"
 	probes(r)
 	malformed(r)
-	worlds, consPer, maxDepth := 150, 6, 3
+	worlds, consPer, maxDepth := 500, 6, 3
 	if r.Thorough() {
-		worlds, consPer, maxDepth = 1500, 7, 4
+		worlds, consPer, maxDepth = 6000, 7, 4
 	}
 	limits := []int{1, 2, 3, -1}
 	for wi := 0; wi < worlds; wi++ {
-		c := newCase(r, "world")
-		GenWorld(r.R, c.b, r.Thorough() && wi%3 == 0)
+		focus := ""
+		switch wi % 10 {
+		case 3:
+			focus = "members"
+		case 7:
+			focus = "dirs"
+		}
+		c := newCase(r, "world "+focus)
+		if focus != "" {
+			GenFocusWorld(r.R, c.b, focus)
+		} else {
+			GenWorld(r.R, c.b, r.Thorough() && wi%3 == 0)
+		}
 		if len(c.b.Bad) > 0 {
 			r.Fail("world-build", strings.Join(c.b.Bad, "; "), "ok", "", r.CaseOps())
 			continue
@@ -248,6 +272,14 @@ func Run(r *hk.Run) {
 				depth = 4
 			}
 			cons, class := GenCons(r.R, mw, depth)
+			if focus != "" && k > 0 {
+				cons, class = GenFocusCons(r.R, mw, focus), "nonconstant"
+				if n := len(mw.matching(cons)); n == 0 {
+					class = "const-none"
+				} else if n == len(mw.Blobs) {
+					class = "const-all"
+				}
+			}
 			r.Hit("cons:" + class)
 			if ScratchRisk(cons) {
 				r.Hit("cons-region:valueinset-over-attr")
@@ -271,9 +303,22 @@ func Run(r *hk.Run) {
 					c.query(s, l, cons, class)
 				}
 			}
+			if ScratchRisk(cons) && ValidTop(cons) {
+				// the same constraint on one blob at a time: one candidate, a fresh scratch slice
+				for i, pn := range mw.PNs {
+					if i < 8 {
+						c.query("unsorted", -1, &Cons{Op: "and", A: &Cons{Prefix: pn}, B: cons}, class)
+					}
+				}
+			}
 			if k == 0 {
 				r.Sample(map[string]any{"blobs": len(mw.Blobs), "claims": len(mw.Claims), "constraint": trunc(cons.Words(), 200), "class": class})
 			}
 		}
+	}
+	h := r.Res.Histogram
+	if n := h["cons:nonconstant"] + h["cons:const-none"] + h["cons:const-all"]; n > 0 {
+		r.Note(fmt.Sprintf("generated constraints: %d, of which %d (%.1f%%) are not constant on their world (match some but not all blobs), %d match nothing, %d match everything",
+			n, h["cons:nonconstant"], 100*float64(h["cons:nonconstant"])/float64(n), h["cons:const-none"], h["cons:const-all"]))
 	}
 }
